@@ -19,7 +19,7 @@ RULE = ("generated bodies E (C04 grammar with ^/^^ under map/filter/sort_by/pipe
         "distinct_nontrivial = distinct (binding form, uses-parent-under-binding, body text) with the value present for at least one input")
 
 FORMS = ("set", "define", "preset-var", "preset-macro", "position", "position-split", "pipe-parent", "macro-late-var", "recursive-macro", "set-twin",
-         "selected-under-binding", "preset-in-stage", "frame-names",
+         "selected-under-binding", "preset-in-stage", "frame-names", "define-in-macro",
          "computed-name")
 # terminating self-referential macro bodies (tree and linear recursion) that read the enclosing input or a variable bound on the way down
 RECURSIVE = [
@@ -121,6 +121,18 @@ def gen_unit(rng):
         for a, b in rng.sample(cands, rng.choice((1, 2, 3))):
             u["pairs"].append((a, b, False))
         return u
+    if form == "define-in-macro":
+        # a macro whose body holds a define of its own is expanded under two different macro environments: each expansion is
+        # the body written out there
+        if rng.random() < 0.5:
+            u["pairs"].append(('(define "m" (define "h" (push [] @g) @h) (push [] (define "g" 1 @m) (define "g" 2 @m)))', "(push [] (push [] 1) (push [] 2))", False))
+            u["pairs"].append(('(define "m" (define "h" (+ @g ^.i) (* @h 2)) (map (push [] 1 2 3) (define "g" . @m)))', "(map (push [] 1 2 3) (* (+ . ^.i) 2))", True))
+        else:
+            u["pre"] = ["--set", '@mm=(define "h" (push [] @label .i) @h)']
+            u["pairs"].append(('(define "label" "a" @mm)', '(push [] "a" .i)', False))
+            u["pairs"].append(('(define "label" "b" @mm)', '(push [] "b" .i)', False))
+            u["pairs"].append(('(define "label" (size .arr) (push [] @mm (define "label" "c" @mm)))', '(push [] (push [] (size .arr) .i) (push [] "c" .i))', False))
+        return u
     if form == "frame-names":
         # functions that hand their body an object with members called so_far / value / index / key bind no variables of
         # those names: a user's variable of that name is still the user's; and a variable and a macro may share a name
@@ -156,7 +168,12 @@ def gen_unit(rng):
         tail = rng.choice(([], ["--select", ".i=i", "--select", ".n=n"], ["--unique"], ["--take", "3"]))
         if which == "group":
             tail = [t for t in tail if t not in ("--take", "3")]
-        u["runs"] = [["--set", "%s=%s" % (name, val), stage % ref] + tail, [stage % val] + tail]
+        head = []
+        if rng.random() < 0.35:
+            # the rows come out of a split and pass another sorter first: they still carry the bindings
+            head = ["--split-by=(push [] . .)"]
+            tail = tail + ["--sort-by=.i"] if which in ("sort", "sort-macro", "group") else tail
+        u["runs"] = [head + ["--set", "%s=%s" % (name, val), stage % ref] + tail, head + [stage % val] + tail]
         u["which"] = which
         return u
     if form == "pipe-parent":
@@ -371,7 +388,7 @@ def run_unit(ctx, unit):
             st.inconc("watchdog")
         elif o.result == "panic":
             st.count("skipped_panic_is_C05")
-        elif unit["form"] in ("frame-names", "set-twin", "selected-under-binding", "computed-name", "recursive-macro"):
+        elif unit["form"] in ("frame-names", "set-twin", "selected-under-binding", "computed-name", "recursive-macro", "define-in-macro"):
             # hand-written forms: every one of these configurations is valid (a variable and a macro may share a name, ...)
             st.violation("valid-bindings-rejected:" + unit["form"], "a valid configuration of bindings was rejected: %s" % o.errtext[:200], unit, {"args": args})
         else:
